@@ -257,7 +257,7 @@ fn main() {
     let base = GenCfg { max_classes: 8, max_fields: 2, max_methods: 2, max_params: 2, orphan: (1, 8), absent: (1, 8), comment_chance: (1, 5), ..GenCfg::default() };
     let simple = GenCfg { target_dollar: false, ..base.clone() };
     let complete = GenCfg { target_dollar: false, orphan: (0, 1), fully_named: true, ..base.clone() };
-    let n = ctx.tier.pick(30_000, 600_000);
+    let n = ctx.tier.pick(150_000, 600_000);
     run_cases(&ctx, &replay, &mut rep, "extend_contract", n, |rng, rep, i| {
         let cfg = match i % 4 { 0 => &base, 1 => &simple, _ => &complete };
         match i % 3 { 0 => case::<2>(rng, rep, cfg), 1 => case::<3>(rng, rep, cfg), _ => case::<4>(rng, rep, cfg) }
